@@ -195,7 +195,8 @@ def observe_findings(arg):
         vals = split[fi]
         ms = [Measurement(f"fn{fi}_{j}", Location(1 + 300 * j, 1), Location(2 + 300 * j, 2), L) for j, L in enumerate(vals)]
         lengths += vals
-        cb.add_file(SourceFileEntry(f"d/f{fi}.py", "s", "Python", sum(vals), ms))
+        # the stored line total of a file is a figure of its own: the sum of its functions, nothing at all, a small number
+        cb.add_file(SourceFileEntry(f"d/f{fi}.py", "s", "Python", (sum(vals), 0, 12)[(fi + variant) % 3], ms))
     cb.aggregate()
     rep = Report(cb, GithubRepository("o", "n", branch="main") if repo else None)
     con = console()
